@@ -239,7 +239,9 @@ OCT [0-7]
   yylval->f->in_string = true;
   if (yylval->f->level == 0)
     {
-      yylval->f->t.push_child (parse_subquery (yylval->f->yank_str ()));
+      yylval->f->t.push_child
+	(parse_subquery (yylval->f->yank_str (),
+			 yyget_extra (yyscanner)->depth + 1));
       BEGIN STRING;
     }
   else
